@@ -1,6 +1,6 @@
 //go:build verif
 
-package prio3
+package prio3_test
 
 // C19 refcheck: binds the reference model verifref/prio (field moduli and
 // element encoding, measurement encodings + truncation, plain aggregates) to
